@@ -306,7 +306,9 @@ def gen_set_data(rng, case, ref):
     ftype = spec["type"]
     fid = COST_ALIASES.get(spec.get("cost"), "unbinned")
     counts = fid in POISSON
-    as_container = bool(rng.random() < 0.5)
+    # templates: the replacement that exercises most of the graph (new support points, container with y and x sources)
+    hard = bool(case.get("template")) and ftype == "xy" and fid in NEEDS_ERRORS
+    as_container = bool(hard or rng.random() < 0.5)
     ns = {}
     if ftype in ("xy", "indexed"):
         y = ref.model.f(ref.x, gen.perturbed_params(rng, ref.model, 0.1))
@@ -317,7 +319,7 @@ def gen_set_data(rng, case, ref):
         y = [float(np.round(v, 5)) for v in y]
         if ftype == "xy":
             ns = {"x": [float(v) for v in ref.x], "y": y}
-            if rng.random() < 0.6:
+            if hard or rng.random() < 0.6:
                 # new support points as well (same number, same sign/order pattern): every node derived from x must follow
                 xn = np.asarray(ref.x, dtype=float) + rng.uniform(0.05, 0.6, size=ref.n)
                 yn = ref.model.f(xn, gen.perturbed_params(rng, ref.model, 0.1))
@@ -339,8 +341,8 @@ def gen_set_data(rng, case, ref):
         ns["as_container"] = True
         srcs = []
         need = fid in NEEDS_ERRORS
-        for k in range(int(rng.integers(1 if need else 0, 3))):
-            on_x = ftype == "xy" and fid in NEEDS_ERRORS and k > 0 and rng.random() < 0.5
+        for k in range(2 if hard else int(rng.integers(1 if need else 0, 3))):
+            on_x = ftype == "xy" and fid in NEEDS_ERRORS and k > 0 and (hard or rng.random() < 0.5)
             op = gen.gen_source(rng, ref.n, ftype, "c%d_%d" % (int(rng.integers(0, 10**6)), k), yscale=float(np.mean(np.abs(ns.get("y") or ns.get("data") or [10.0])) + 0.5), force={"axis": "x" if on_x else "y", "reference": "data"}, allow_model=False, allow_x=on_x)
             a = dict(op[1])
             a["kind"] = "simple" if op[0] == "add_error" else "matrix"
